@@ -5,9 +5,45 @@ import re
 PROP = 'C15'
 PROPS_MODULES = ['LA.Props.C15']
 GEN = ['AclMaps']
-ASSUMPTIONS = []
-TRUSTED = []
-MANIFEST = {'text': '', 'note': '', 'technique': ''}
+ASSUMPTIONS = [
+    'names are C strings (no NUL inside); ids are C ints; malloc never fails (the ENOMEM returns are not driven)',
+    'a case is entirely narrow or entirely wide: names are set, printed and parsed in one representation, the only '
+    'mbs<->wcs conversion is the one archive_entry_acl_next() does for the dump, in C.UTF-8, on valid code points',
+    'round-trip theorems: the ACL is what archive_acl_add_entry can build (WF, proved reachable), qualifiers only on '
+    'user/group entries (to_text drops an id or name given to any other tag), an unnamed user/group entry has id >= 0 '
+    '(-1 prints as 0), names free of NUL : , blank tab newline and # and not purely numeric',
+    'styles without EXTRA_ID are outside the round-trip theorems (there the wide copy prints 0 for the id of an unnamed '
+    'entry while the narrow copy prints the id; both are modelled and compared, text_len_sufficient covers every style)',
+    'uid_t is 4 bytes (sizeof(uid_t) * 3 + 1 = 13 in archive_acl_text_len)',
+]
+TRUSTED = [
+    'tools/lib/extract.py AclMaps: the two print maps, the six parser switch tables and the ACL constants are read from '
+    'archive_acl.c / archive_entry.h with regular expressions (fall-through between case labels is not analysed)',
+    'keyword strings (user, group, mask, other, owner@, group@, everyone@, default, allow, deny, audit, alarm) and the '
+    'control flow of the generators and parsers are modelled by hand; the acl engine ties them to the C',
+    'archive_mstring / archive_string internals are not modelled beyond "a name is the characters before the first NUL"',
+]
+MANIFEST = {
+    'text': 'Lean theorems over a model of archive_acl.c (both the char and the wchar_t copy, differences kept): '
+            'text_len_sufficient — for every ACL and every flag word the generated text plus terminator fits in '
+            'archive_acl_text_len, so the Buffer-overrun abort and the heap write before it are unreachable; '
+            'entry_roundtrip_posix/nfs4 and acl_roundtrip_partial — for every well-formed POSIX.1e or NFSv4 ACL in the '
+            "property's quantifier with no '#' in a name and every style with ids (mark-default, Solaris, comma/newline, "
+            'compact) parsing the text back into a fresh ACL returns OK and rebuilds the listed entries in order with '
+            'type, tag, id, permset, name (unnamed entries come back named by their id) and the mode bits; the '
+            "full-strength statement is refuted with a '#' witness (acl_roundtrip_false); parser_total / parser_no_oob — "
+            'both parsers terminate without reading text[length] / beyond the NUL or dereferencing a NULL field on every '
+            'character list; malformed_skipped_with_warn and accepted_mode_field_valid; table lemmas by decide over the '
+            'extracted maps; wf_reachable. Tied to the C by engine acl: real archive_entry_acl_to_text(_w), '
+            'from_text(_w), archive_acl_from_text_nl on exact-size unterminated blocks, acl_reset/next, under ASan/UBSan.',
+    'note': "Round trip holds with the extra hypothesis 'no # in a qualifier name' (known finding F15-hash-in-name). "
+            'Five defects found by the proofs/correspondence were repaired in the libarchive worktree (fix: commits): '
+            'from_text_nl over-read/endless loop, from_text_w NULL dereference, text_len under-count (heap overflow), '
+            'ismode partial permset, acl_new_entry accepting OR-ed types. Trusted: Lean kernel, extractor, harness and '
+            'generators; mstring conversions and malloc failure are not modelled.',
+    'technique': 'Lean 4 proof (refinement of the pointer-level parser to field bodies, induction over the entry list, '
+                 'decide over extracted tables) + model/C differential correspondence',
+}
 
 ACCESS, DEFAULT, ALLOW, DENY, AUDIT, ALARM = 0x100, 0x200, 0x400, 0x800, 0x1000, 0x2000
 USER, USER_OBJ, GROUP, GROUP_OBJ, MASK, OTHER, EVERYONE = 10001, 10002, 10003, 10004, 10005, 10006, 10107
@@ -103,7 +139,7 @@ class Acl(Engine):
             if rng.random() < 0.05:    # an entry of the other family, or with a bad tag / permset: must be refused
                 ops.append(rng.choice([f'add {ACCESS} 7 {USER} 5 -', f'add {ALLOW} 8 {USER} 5 -', f'add {ALLOW} 8 {MASK} -1 -',
                                        f'add {DEFAULT} 7 {EVERYONE} -1 -', f'add {DEFAULT} 8 {USER} 1 -', f'add {ACCESS} 7 10000 1 -',
-                                       f'add 0 7 {USER} 1 -']))
+                                       f'add 0 7 {USER} 1 -', f'add {ACCESS | DEFAULT} 7 {USER_OBJ} -1 -', f'add {ALLOW | DENY} 8 {USER_OBJ} -1 -', f'add {ACCESS | ALLOW} 1 {USER} 1 -']))
             ops.append('dump')
             styles = list(range(32))
             rng.shuffle(styles)
@@ -126,17 +162,17 @@ class Acl(Engine):
             nm = rng.choice(['', '', 'bob', 'ö', 'a1', '77', '1000', 'x#y', 'default', 'd'])
             idf = rng.choice(['', '', '5', '1000', '2147483647', '2147483648', '99999999999', '007', 'x'])
             if nfs4:
-                tag = rng.choice(['user', 'group', 'owner@', 'group@', 'everyone@', 'owner', 'User', 'everyone'])
+                tag = rng.choice(['user', 'group', 'owner@', 'group@', 'everyone@'] * 4 + ['owner', 'User', 'everyone'])
                 perms = ''.join(c for c in 'rwxpdDaARWcCos' if rng.random() < 0.5) if rng.random() < 0.7 else \
                     ''.join(c if rng.random() < 0.5 else '-' for c in 'rwxpdDaARWcCos')
                 flags = ''.join(c if rng.random() < 0.4 else rng.choice(['-', '']) for c in 'fdinSFI')
-                ty = rng.choice(['allow', 'deny', 'audit', 'alarm', 'allow', 'Allow', 'den', ''])
+                ty = rng.choice(['allow', 'deny', 'audit', 'alarm'] * 4 + ['Allow', 'den', ''])
                 f = [tag] + ([nm] if tag in ('user', 'group') else []) + [perms, flags, ty]
                 if idf and rng.random() < 0.6:
                     f.append(idf)
             else:
-                tag = rng.choice(['user', 'group', 'other', 'mask', 'u', 'g', 'o', 'm', 'users', 'us', 'x', ''])
-                mode = rng.choice(['rwx', 'r-x', '---', 'rw', 'r', 'RWX', '-', 'rwxx', 'rz', '', '7'])
+                tag = rng.choice(['user', 'group', 'other', 'mask', 'u', 'g', 'o', 'm'] * 3 + ['users', 'us', 'x', ''])
+                mode = rng.choice(['rwx', 'r-x', '---', 'rw', 'r', 'RWX', '-', 'rwxx'] * 2 + ['rz', '', '7'])
                 if tag in ('other', 'mask', 'o', 'm') and rng.random() < 0.5:
                     f = [tag, mode]                      # Solaris style
                 else:
@@ -166,7 +202,7 @@ class Acl(Engine):
     def mutate(self, rng, t, wide):
         alpha = ':,\n \t#' * 3 + 'usergopmdfaultkhnywev@-rwxRWXpDaAcCsSFIin0123456789'
         t = list(t)
-        for _ in range(rng.choice([0, 1, 1, 2, 4])):
+        for _ in range(rng.choice([0, 0, 0, 1, 1, 2, 4])):
             r = rng.random()
             i = rng.randrange(len(t) + 1)
             if r < 0.35 and t:
@@ -269,6 +305,9 @@ class Acl(Engine):
                     inside = False
             if not inside:
                 continue
+            if hasattr(self, 'counters'):
+                self.counters['checked'] += 1
+                self.counters['hashed'] += 1 if hashed else 0
             got = self.parse_dump(o)
             m = re.search(r' st=(\w+) ', o)
             if got is None or m is None:
@@ -296,13 +335,24 @@ class Acl(Engine):
         return any(o.startswith('t=') and ' n=0' not in o for o in impl)
 
     def stats(self, cases, impl):
-        st = {'ops': {}, 'rt_null': 0, 'rt_text': 0}
+        st = {'ops': {}, 'rt_null': 0, 'rt_text': 0, 'rt_in_quantifier_checked': 0, 'rt_hash_names': 0,
+              'parse_status': {}, 'parse_entries_after': {}, 'variants': {'n': 0, 'w': 0}, 'styles_seen': set()}
         for c, im in zip(cases, impl):
+            st['variants'][c.ops[0].split()[-1] if c.ops[0].startswith('variant') else 'n'] += 1
             for op, o in zip(c.ops, im):
-                k = op.split()[0]
+                w = op.split()
+                k = w[0]
                 st['ops'][k] = st['ops'].get(k, 0) + 1
                 if k == 'rt':
                     st['rt_null' if o == 'null' else 'rt_text'] += 1
+                    st['styles_seen'].add(int(w[1]) & 31)
+                if k in ('parse', 'parsenl'):
+                    st['parse_status'][o] = st['parse_status'].get(o, 0) + 1
+            self.counters = {'checked': 0, 'hashed': 0}
+            self.oracle(c, im)
+            st['rt_in_quantifier_checked'] += self.counters['checked']
+            st['rt_hash_names'] += self.counters['hashed']
+        st['styles_seen'] = len(st['styles_seen'])
         return st
 
 
